@@ -11,6 +11,10 @@ CLAIMED = {
          "Machine-checked theorems C18_model_meets_spec / C18_history_meets_spec / C18_file / C18_fail quantify over all library outputs, all prior contents of the output path and all finite run histories; the O_TRUNC flag and the accepted argument counts are re-read from cmd/ on every run (tie lemmas C18_tie_*), and the built binary is run on profile x data x prior-state x history cases whose outcomes must satisfy the same executable spec and equal the model's.",
          "Trusted: Coq kernel; OS semantics of open/O_TRUNC/write as modelled by Cli.open_write; library results enter as an oracle value (LibOk text | LibErr); go/ast translator; OCaml extraction (ExtrOcamlBasic, ExtrOcamlString) and glue. dateCreated is normalised before comparison (the CLI uses the wall clock).",
          "DESIGN.md section 5 C18"),
+ "C16": ("Coq proof: generic PEG interpreter proved sound and complete for the relational PEG semantics; ParsePath model accepts exactly the whole-string sentences of the grammar literal re-read from peg.go on every run (tie by reflexivity) + exhaustive small-scope differential run of path.ParsePath against the extracted model on sentences, layouts and every single-edit mutant",
+         "Theorems C16_accept_is_sentence / C16_sentence_is_accepted / C16_reject_is_not_sentence / C16_no_truncation / C16_structure_unique hold for every string and every fuel; interp_sound / interp_complete hold for every grammar. The grammar, the end-of-input check, the error return and the trim cutset are regenerated from peg.go / parser.go (C16_tie_*). path.ParsePath is run on >100k strings (all sentences <=3 leaves, random layouts, every single-edit mutant of a sample) and must equal the model in outcome and structure; a sample goes through pkg.CompileProfile.",
+         "Trusted: Coq kernel; the hand transcription of the .peg actions and parser.go build() as PathGrammar.build (validated by the structure comparison); pigeon's runtime implementing PEG semantics for the node kinds used; fuel adequacy of default_fuel is measured (an Exhausted answer is reported), not proved; translator; extraction.",
+         "DESIGN.md section 5 C16"),
 }
 WIP = "check not built yet in this session (work in progress; see DESIGN.md section 9 for the order of work)"
 
